@@ -27,7 +27,7 @@ STRICT = '{MkOpts(FALSE, FALSE)}'
 ALLOPTS = 'AllOpts'
 
 TREE_INVS = ['Dump', 'OneCharPerStep', 'CodeMapOK', 'ErrorPointsAtInput', 'ConservativeExtension', 'Viable',
-             'AcceptIffGrammar', 'ValueIsDenotation']
+             'AcceptIffGrammar', 'ValueIsDenotation', 'ErrorsAbsorb', 'TokenAgreesWithValue']
 
 # name -> (alphabet, prefix, suffix, optset, {tier: maxlen})
 PARSER_TREES = {
@@ -70,6 +70,16 @@ PARSER_TREES = {
     # near-miss whitespace around a value (VT, FF, NEL, NBSP, U+2028, BOM, ZWSP): only space, tab, LF, CR are JSON whitespace
     'ws': dict(alpha=toks(' ', '\t', '\r', '\n', '\x0b', '\x0c', '\x85', '\xa0', '\u2028', '\ufeff', '\u200b', '\u3000', '1', 'null', '[', ']'),
                prefix='', suffix='', opts=STRICT, maxlen={'quick': 4, 'thorough': 5}),
+    # strings whose length crosses the inline capacity of the small-string buffers (16 bytes) and other power-of-two
+    # boundaries: a 13-character pad plus single characters of every encoding length, escapes, early termination
+    'strpad': dict(alpha=toks('abcdefghijklm', 'a', '\u00e9', '\\n', '\U0001F600', '"', '\\u00e9', '\\'),
+                   prefix='"', suffix='', opts=STRICT, maxlen={'quick': 5, 'thorough': 6}),
+    # the same for keys (and what follows them)
+    'keypad': dict(alpha=toks('abcdefghijklm', 'k', '\u20ac', '\\t', '"', ':', '1', '}'),
+                   prefix='{"', suffix='', opts=STRICT, maxlen={'quick': 5, 'thorough': 6}),
+    # and for numbers (the number buffer is a 16-byte small vector)
+    'numpad': dict(alpha=toks('1234567890123', '0', '7', '.', 'e', '-', ',', ']'),
+                   prefix='[', suffix='', opts=STRICT, maxlen={'quick': 5, 'thorough': 6}),
     # nested objects/arrays: entries, duplicate keys, empty containers
     'nest': dict(alpha=toks('{"a":', '{"b":', '"a":', '[', ']', '}', ',', '{}', '[]', '1', ' '),
                  prefix='', suffix='', opts=STRICT, maxlen={'quick': 6, 'thorough': 8}),
